@@ -149,6 +149,25 @@ def plans(thorough):
     # hand-picked: identical boxes, nested, mutually overlapping in both axes (recursive fallback path), grid, columns
     hp = [((0, 0, 100, 100),) * 3, ((0, 0, 200, 200), (50, 50, 100, 100), (60, 60, 90, 90)), ((0, 0, 120, 120), (60, 60, 180, 180), (0, 100, 100, 200), (110, 0, 200, 70)),
           tuple((x, y, x + 40, y + 40) for x in (0, 50, 100) for y in (0, 50, 100)), ((0, 0, 40, 200), (50, 0, 90, 200), (100, 0, 140, 90), (100, 100, 140, 200))]
+    def staircase(n, rev=False):
+        # a tiling nested n levels deep: a strip across the top, then a strip down the left of what remains, and so on (every level
+        # of the recursive row / column splitting peels off one region)
+        x0, y0, x1, y1 = 0, 0, 290, 290
+        out_ = []
+        for i in range(n):
+            if i % 2 == 0:
+                h_ = int((y1 - y0) * 0.12)
+                out_.append((x0, y0, x1, y0 + h_ - 2))
+                y0 += h_
+            else:
+                w_ = int((x1 - x0) * 0.12)
+                out_.append((x0, y0, x0 + w_ - 2, y1))
+                x0 += w_
+        out_.append((x0, y0, x1, y1))
+        return tuple(reversed(out_)) if rev else tuple(out_)
+    for st in (staircase(13), staircase(16, rev=True)):
+        out.append((st, False, 0.1))
+        out.append((st, False, 0.5))
     for h in hp:
         # no slant, a clear slant (6 px) and barely tilted lines (0.05 / 0.3 px over the line: a de-skew angle far below 0.1 degrees
         # and just below 1 degree) — the de-skew rotation and its inverse must cancel for every angle
